@@ -1,6 +1,7 @@
 CONSTANTS
   MaxDepth = 3
   EmitOn = TRUE
+  Nested = FALSE
 INIT Init
 NEXT Next
 VIEW View
